@@ -73,10 +73,23 @@ var vcAllModes = []string{"typed", "lines", "paste", "bracketed", "bracketed_ent
 //	bracketed        ESC[200~ everything ESC[201~ in one read
 //	bracketed_enter  ESC[200~ everything but the final Enter ESC[201~ in one read, then Enter typed
 //	bracketed4       the bracketed stream delivered four bytes per read
+//	crlf_<mode>      <mode> with every Enter sent as CR LF
 //	max<N>           the plain stream through a reader that returns at most N bytes per Read
 //	                 (input arriving faster than it is consumed: a long paste or piped input)
 func vcChunks(mode string, keys []byte) [][]byte {
 	cp := func(b []byte) []byte { return append([]byte(nil), b...) }
+	if strings.HasPrefix(mode, "crlf_") {
+		// every line end arrives as CR LF (text pasted from a file with such line ends): one line break all the same,
+		// wherever the reads happen to cut the stream - also between the two bytes
+		var wide []byte
+		for _, k := range keys {
+			wide = append(wide, k)
+			if k == keyEnter {
+				wide = append(wide, '\n')
+			}
+		}
+		return vcChunks(mode[5:], wide)
+	}
 	if strings.HasPrefix(mode, "max") {
 		n, err := strconv.Atoi(mode[3:])
 		if err != nil || n < 1 {
